@@ -636,6 +636,9 @@ def _sup_names(items):
     return out
 
 COLLIDING_PAIRS = [('IOBusy', 'IoBusy'), ('Ab', 'AB'), ('HTTPServer', 'HttpServer'), ('T', 't'), ('OK', 'Ok'), ('Q2', 'q2')]
+# distinct identifiers with distinct snake_case forms that coincide under a cruder normalisation (lower-casing):
+# such definitions compile, so a confusion of the two states shows as behaviour
+CASE_PAIRS = [('Backup', 'BackUp'), ('Setup', 'SetUp'), ('Online', 'OnLine'), ('Standby2', 'StandBy2')]
 
 def repeat_variant(d, rng):
     """d with keys written twice, the overridden (earlier) occurrence being wrong or different: the definition
@@ -686,7 +689,7 @@ def collide_variant(d, rng):
     sups = _sup_names(d[si][1])
     if len(leaves) < 2:
         return None
-    a, b = rng.choice(COLLIDING_PAIRS)
+    a, b = rng.choice(COLLIDING_PAIRS + CASE_PAIRS)
     if rng.random() < 0.5:
         a, b = b, a
     if a in leaves + sups or b in leaves + sups:
